@@ -49,6 +49,16 @@ def props_of_fn(unit_text, qual):
     return res
 
 
+def fn_disturbed(b, f):
+    """does the function overlap an item section in which ghost lines sat next to changed code?"""
+    if f is None:
+        return False
+    for it in b.items:
+        if it.get('disturbed') and it['start'] <= f.end and f.start <= it.get('end', 0):
+            return True
+    return False
+
+
 def repo_lines_of(b, f):
     return sum(1 for ln in range(f.start, f.end + 1) if b.origin[ln - 1][0] == 'repo')
 
@@ -204,8 +214,23 @@ def main(argv):
         for fu in futs:
             results.append(fu.result())
 
+    # A unit whose overlay no longer fits the source (ghost lines next to changed code) and that Verus cannot
+    # even parse / type-check is rebuilt without the disturbed proof hints (DESIGN.md 2.2): the contracts stay,
+    # the hints attached to the edited statements go; what then fails is classified by the replay stage.
+    for k, r in enumerate(results):
+        b = r['build']
+        disturbed = sum(i['disturbed'] for i in b.items)
+        toolish = (not r['completed']) or any(f.kind == 'tool' for f in r['findings'])
+        if disturbed and toolish:
+            u, c = units[k]
+            r2 = vx.run_unit(u, tuple(c), drop_disturbed=True)
+            r2['first_pass_trouble'] = [f.message[:160] for f in r['findings'] if f.kind == 'tool'][:3]
+            results[k] = r2
+
+    forced_replay = None
     trouble = []        # exit-2 reasons
     violations = []     # (unit, finding)
+    weak_violations = []  # failed obligations in functions whose proof hints were lost: need a replayed input
     known_hits = []
     fn_rows = []
     obligations = 0
@@ -287,6 +312,8 @@ def main(argv):
                     break
             if hit:
                 known_hits.append((hit, r['tag'], fd))
+            elif r.get('hints_dropped') and fn_disturbed(b, fobj):
+                weak_violations.append((r['tag'], fd))
             else:
                 violations.append((r['tag'], fd))
 
@@ -322,6 +349,20 @@ def main(argv):
             elif out['outcome'] in ('inconclusive', 'error'):
                 trouble.append('stand-in %s: %s' % (s['name'], out.get('detail', out['outcome'])))
 
+    # failed obligations in functions that lost proof hints count only if the replay finds a failing input
+    if weak_violations and not violations:
+        import replay
+        rp = replay.make(pid, cfg, weak_violations, results)
+        if replay.found_input(rp):
+            violations = weak_violations
+            forced_replay = rp
+        else:
+            for u, fd in weak_violations:
+                trouble.append('unit %s fn %s: %s - but the proof hints next to edited code were dropped (lost anchors) and the bounded replay '
+                               'found no failing input: undecided (see %s)' % (u, fd.fn, fd.message, rp))
+    elif weak_violations:
+        violations += weak_violations
+
     wall = time.time() - t0
     discharged = obligations - failed_obl
     rc = 0
@@ -331,7 +372,7 @@ def main(argv):
     replay_path = None
     if violations:
         import replay
-        replay_path = replay.make(pid, cfg, violations, results)
+        replay_path = forced_replay or replay.make(pid, cfg, violations, results)
         tail = '' if replay.found_input(replay_path) else ' no-failing-input-found'
         lines.append('VIOLATION property=%s replay=%s%s' % (pid, replay_path, tail))
         rc = 1
@@ -367,8 +408,9 @@ def main(argv):
         'wall_s': round(wall, 2),
         'violations': len(violations),
     }
-    os.makedirs(os.path.join(ROOT, 'evidence'), exist_ok=True)
-    evp = os.path.join(ROOT, 'evidence', pid + '.json')
+    evdir = os.environ.get('VERIF_EVIDENCE_DIR', os.path.join(ROOT, 'evidence'))
+    os.makedirs(evdir, exist_ok=True)
+    evp = os.path.join(evdir, pid + '.json')
     tmp = evp + '.%d.tmp' % os.getpid()
     json.dump(ev, open(tmp, 'w'), indent=1)
     os.replace(tmp, evp)
